@@ -49,7 +49,10 @@ struct RunCtx {
 		std::string sg = sig_;
 		for (char &c : sg) if (c == ' ' || c == '\n' || c == '\t') c = '_';   // signatures are single tokens
 		log.ev("VIOLATION %s", sg.c_str());
-		if (!violation) { violation = true; sig = sg; detail = detail_; }
+		// one run reports one signature: the first of the property being checked, else the first of any
+		bool own = sg.compare(0, prop.size() + 1, prop + "|") == 0;
+		bool have_own = violation && sig.compare(0, prop.size() + 1, prop + "|") == 0;
+		if (!violation || (own && !have_own)) { violation = true; sig = sg; detail = detail_; }
 	}
 	void crumb(const char *fmt, ...) __attribute__((format(printf, 2, 3)));
 	void count(const std::string &k, int64_t v = 1) { if (stats) stats->add(k, v); }
